@@ -25,9 +25,9 @@ from concurrent.futures import ThreadPoolExecutor
 from .common import Report, jhash
 from .tlc import run_tlc as _run_tlc, require_ok, TlcFailure
 
-PREC = {"Unplug": 0, "Plugin": 10, "Recompute": 20}
+PREC = {"Unplug": 0, "Plugin": 10, "Recompute": 20, "Urgent": -1000, "Base": 1000}
 BATCH_FILE = "EventQueue_batch.ndjson"
-MC_ACTIONS = ["Add", "AddMany", "AddManyKept", "DoGetEvent", "GetCurrentAt", "QLen", "QEmpty", "QLastTs", "RoundTrip"]
+MC_ACTIONS = ["Add", "AddMany", "DoAddManyFail", "DoGetEvent", "GetCurrentAt", "QLen", "QEmpty", "QLastTs", "RoundTrip"]
 
 
 def run_tlc(module, cfg, heap="2g", **kw):
@@ -66,6 +66,14 @@ class _Ids:
         from acnportal.acnsim.models import EV, Battery
         if kind == "Recompute":
             e = RecomputeEvent(ts)
+        elif kind in ("Urgent", "Base"):
+            # a plain Event (the public base class) with its documented attributes set by the caller: the default
+            # precedence +inf, or -inf ("before everything else in its period")
+            from acnportal.acnsim.events import Event
+            e = Event(ts)
+            e.event_type = kind
+            if kind == "Urgent":
+                e.precedence = float("-inf")
         else:
             if kind == "Unplug" and self.open_evs:
                 ev = self.open_evs.pop(0)          # the unplug of an earlier plug-in: one shared EV object
@@ -103,15 +111,15 @@ class _Ids:
         pool = {}
         for item in list(old_q.queue):
             e = item[1]
-            if getattr(e, "event_type", None) == "Recompute" and id(e) in self.by_obj:
-                pool.setdefault(e.timestamp, []).append(self.by_obj[id(e)])
+            if getattr(e, "event_type", None) in ("Recompute", "Urgent", "Base") and id(e) in self.by_obj:
+                pool.setdefault((e.event_type, e.timestamp), []).append(self.by_obj[id(e)])
         for v in pool.values():
             v.sort()
         content = []
         for item in list(new_q.queue):
             e = item[1]
-            if getattr(e, "event_type", None) == "Recompute" and id(e) not in self.by_obj:
-                cands = pool.get(getattr(e, "timestamp", None)) or []
+            if getattr(e, "event_type", None) in ("Recompute", "Urgent", "Base") and id(e) not in self.by_obj:
+                cands = pool.get((e.event_type, getattr(e, "timestamp", None))) or []
                 if cands:
                     sid = cands.pop(0)
                     self.by_obj[id(e)] = sid
